@@ -671,6 +671,8 @@ class Interp:
         if k == "ref":
             inner = self.const_tree_val(t["to"])
             return None if inner is None else Opaque.make("constref", arr=inner)
+        if k == "str":
+            return Opaque.make("str", s=t["s"])
         return None
 
     def eval_promoted(self, fnpath, idx):
